@@ -5,6 +5,7 @@ import (
 	"io"
 	"log"
 	"os"
+	"path/filepath"
 	"sort"
 
 	"github.com/dgraph-io/badger/v4"
@@ -108,7 +109,10 @@ func (b *MemBackend) Open() (store.Store, error) {
 
 // ---- real bbolt ------------------------------------------------------------------
 
-type BoltBackend struct{ Dir string }
+type BoltBackend struct {
+	Dir   string
+	opens int
+}
 
 func NewBoltBackend(parent string) (*BoltBackend, error) {
 	dir, err := os.MkdirTemp(parent, "bolt-")
@@ -117,11 +121,24 @@ func NewBoltBackend(parent string) (*BoltBackend, error) {
 	}
 	return &BoltBackend{Dir: dir}, nil
 }
-func (b *BoltBackend) Name() string               { return "bbolt" }
-func (b *BoltBackend) Real() bool                 { return true }
-func (b *BoltBackend) CanReopen() bool            { return true }
-func (b *BoltBackend) Destroy()                   { os.RemoveAll(b.Dir) }
-func (b *BoltBackend) Open() (store.Store, error) { return boltstore.Open(b.Dir) }
+func (b *BoltBackend) Name() string    { return "bbolt" }
+func (b *BoltBackend) Real() bool      { return true }
+func (b *BoltBackend) CanReopen() bool { return true }
+func (b *BoltBackend) Destroy()        { os.RemoveAll(b.Dir) }
+
+// Open uses the directory's path relative to the working directory, the way
+// the README opens a database (the scratch directories are absolute paths).
+func (b *BoltBackend) Open() (store.Store, error) {
+	b.opens++
+	if b.opens >= 1 {
+		if cwd, err := os.Getwd(); err == nil {
+			if rel, err := filepath.Rel(cwd, b.Dir); err == nil {
+				return boltstore.Open(rel)
+			}
+		}
+	}
+	return boltstore.Open(b.Dir)
+}
 
 // ---- real badger --------------------------------------------------------------------
 
